@@ -75,6 +75,15 @@ def run_check(prop, tier, seed, replay=None):
                     bad = [a for a in ax if a not in common.ALLOWED_AXIOMS]
                     if bad:
                         broken.append((t, "depends on axioms %s" % bad))
+        if tier == "thorough" and not module_failed:
+            # the compiled proofs once more, through the independent re-checker
+            ok, out_lc = common.leanchecker([mod.LEAN_MODULE] + list(getattr(mod, "LEAN_DEPS", [])))
+            if ok is None:
+                ctx.notes.append(out_lc)
+            elif not ok:
+                broken.append(("leanchecker", "the independent re-check of %s failed: %s" % (mod.LEAN_MODULE, out_lc[-400:])))
+            else:
+                ctx.notes.append("leanchecker accepted %s and its imports" % mod.LEAN_MODULE)
         forb = common.grep_forbidden()
         for hit in forb:
             broken.append(("source audit", hit))
